@@ -247,7 +247,7 @@ def printable_chars(rule, crate, dialect):
     fwd = common.sink_forwarders(crate)
     for n in range(32, 127):
         # what the writer emits (constant propagation with c = n)
-        S = sim.Sim([crate], inline=lambda a, b: b.path in fwd)
+        S = sim.Sim([crate], inline=lex.print_inline(crate))
         texts = set()
         for p in S.run(wf, args={2: n}):
             if p.end != "return":
